@@ -25,4 +25,11 @@ void vs_hash_region(void *p, size_t n);
 extern void (*vs_on_deadlock)(void);
 /* Number of decision points so far */
 long vs_points(void);
+/* explicit-state exploration of body over all interleavings (fork per execution, shared visited set) */
+int vs_explore(void (*body)(void *), void *arg, int workers, double deadline_s);
+int vs_replay_path(void (*body)(void *), void *arg, const char *digits);
+/* report a property violation from a harness monitor (records the choice path, terminates the execution) */
+void vs_violation(const char *msg);
+/* record a terminal outcome fingerprint (counted as distinct outcomes) */
+void vs_outcome(uint64_t h);
 #endif
